@@ -405,6 +405,7 @@ def run(ctx):
             ctx.ob('C07.d', f'{ci.qual}:{p}:in-value', okd, '' if okd else f'option `{p}` affects compilation ({sorted(readers)}) but is absent from equality/repr/JSON: two gatesets compiling differently compare equal', ci.mod.rel, init.lineno)
 
     _sycamore_dispatch_rule(ctx, repo)
+    _pasqal_distance_rule(ctx, repo)
 
 
 def _sycamore_dispatch_rule(ctx, repo):
@@ -521,3 +522,81 @@ def _sycamore_dispatch_rule(ctx, repo):
             if e == 1 and not called:
                 raise AnalysisError(f'C07.g: the dispatcher interpretation did not reach any helper for {fam}**1 (model out of date)')
             ctx.ob('C07.g', key, ok, msg, m.rel, fn.lineno, construct=f'sycamore-known-gate:{fam}')
+
+
+def _pasqal_distance_rule(ctx, repo):
+    """C07.f - the distance the Pasqal virtual device compares with control_radius is the Euclidean distance of the qubit coordinates."""
+    import numpy as np
+    from .. import fdx
+    ctx.decided.append('C07.f PasqalVirtualDevice.distance (interpreted on model qubits of every supported kind) is the Euclidean distance of the coordinates, '
+                       'and ThreeDQubit.distance likewise: the pair test `distance > control_radius` is about the real geometry')
+    ctx.rule('C07.f', 'device geometry: distance(p, q) == sqrt(sum of squared coordinate differences) for grid, line, 2-d and 3-d qubits at probe positions '
+             '(including atoms that differ only in z)', floor=8, style='FDX')
+    dev = repo.cls('cirq_pasqal.pasqal_device.PasqalVirtualDevice')
+    fn = dev.methods.get('distance')
+    if fn is None:
+        raise AnalysisError('PasqalVirtualDevice.distance vanished')
+
+    class Qm:
+        def __init__(self, kind, **c):
+            self.kind = kind
+            self.__dict__.update(c)
+            self.coords = c
+    KINDS = {'GridQubit': {'GridQubit'}, 'LineQubit': {'LineQubit'}, 'TwoDQubit': {'TwoDQubit', 'ThreeDQubit'}, 'ThreeDQubit': {'ThreeDQubit'}}
+
+    def mk(kind, *v):
+        if kind == 'GridQubit':
+            return Qm(kind, row=v[0], col=v[1])
+        if kind == 'LineQubit':
+            return Qm(kind, x=v[0])
+        if kind == 'TwoDQubit':
+            return Qm(kind, x=v[0], y=v[1], z=0)
+        return Qm(kind, x=v[0], y=v[1], z=v[2])
+    probes = [('GridQubit', (0, 0), (3, 4)), ('GridQubit', (2, 5), (2, 1)), ('LineQubit', (1,), (7,)), ('LineQubit', (4,), (4,)),
+              ('TwoDQubit', (0.5, 1.5), (3.5, 5.5)), ('ThreeDQubit', (0, 0, 0), (1, 2, 2)), ('ThreeDQubit', (0.5, 0.5, 1.0), (0.5, 0.5, -2.0)),
+              ('ThreeDQubit', (0, 0, 0), (0.5, 0.5, 1.0)), ('ThreeDQubit', (1, 1, 3), (1, 2, 3))]
+
+    def run_one(owner_fn, env, extra_hook=None):
+        def call_hook(call, it):
+            s = ast.unparse(call.func)
+            if s.endswith('qubit_list'):
+                return [env['p'], env['q']] if 'p' in env else []
+            if extra_hook is not None:
+                return extra_hook(call, it)
+            return NotImplemented
+
+        def isinst(v, t):
+            ts = t if isinstance(t, tuple) else (t,)
+            return isinstance(v, Qm) and any(x in KINDS[v.kind] for x in ts)
+
+        def attr_hook(node, it):
+            if isinstance(node.value, ast.Name) and node.value.id in env and isinstance(env[node.value.id], Qm) and hasattr(env[node.value.id], node.attr):
+                return getattr(env[node.value.id], node.attr)
+            return NotImplemented
+        e2 = dict(env)
+        e2['isinstance'] = isinst
+        for k in ('GridQubit', 'LineQubit', 'TwoDQubit', 'ThreeDQubit'):
+            e2[k] = k
+        it = fdx.NumInterp(e2, call_hook=call_hook, attr_hook=attr_hook)
+        try:
+            return it.call(owner_fn)
+        except fdx.Unsupported as ex:
+            raise AnalysisError(f'{owner_fn.name} is outside the interpretable subset: {ex}')
+    for kind, a, b in probes:
+        p, q = mk(kind, *a), mk(kind, *b)
+        want = float(np.sqrt(sum((p.coords[c] - q.coords[c]) ** 2 for c in p.coords)))
+        got = run_one(fn, {'self': {'qubits': [p, q]}, 'p': p, 'q': q})
+        ok = got is not None and abs(float(got) - want) < 1e-9
+        ctx.ob('C07.f', f'{dev.qual}.distance:{kind}:{a}-{b}', ok, '' if ok else f'distance of {kind}{a} and {kind}{b} is computed as {got} (Euclidean distance {want:.6f}): '
+               'atoms further apart than control_radius pass the pair test', dev.mod.rel, fn.lineno, construct=f'{dev.qual}.distance:{kind}')
+    tq = repo.cls('cirq_pasqal.pasqal_qubits.ThreeDQubit')
+    tfn = tq.methods.get('distance')
+    if tfn is None:
+        raise AnalysisError('ThreeDQubit.distance vanished')
+    for a, b in (((0, 0, 0), (1, 2, 2)), ((0.5, 0.5, 1.0), (0.5, 0.5, -2.0))):
+        p, q = mk('ThreeDQubit', *a), mk('ThreeDQubit', *b)
+        want = float(np.sqrt(sum((p.coords[c] - q.coords[c]) ** 2 for c in p.coords)))
+        got = run_one(tfn, {'self': p, 'other': q, 'sqrt': np.sqrt})
+        ok = got is not None and abs(float(got) - want) < 1e-9
+        ctx.ob('C07.f', f'{tq.qual}.distance:{a}-{b}', ok, '' if ok else f'ThreeDQubit.distance gives {got}, Euclidean distance is {want:.6f}', tq.mod.rel, tfn.lineno,
+               construct=f'{tq.qual}.distance')
